@@ -191,12 +191,29 @@ func (e *Explorer) exploreNode(path []string) *NodeResult {
 			p.Viol(v.sig, v.desc, string(blob))
 		}
 	}
-	if e.CrossEvery > 0 && len(path) > 0 {
-		if n := p.Counters["histories"]; n%int64(e.CrossEvery) == 0 {
+	if e.CrossEvery > 0 && len(path) > 0 && deterministic(path) {
+		if n := addGet(p, "crossval_candidates"); n%int64(e.CrossEvery) == 0 {
 			e.crossValidate(path)
 		}
 	}
 	return res
+}
+
+// deterministic reports whether two executions of the history produce identical files: a
+// multi-key transaction is laid out in the engine's map iteration order (pending writes,
+// value-log buckets), so such histories are not comparable byte by byte across processes.
+func deterministic(path []string) bool {
+	for _, op := range path {
+		if len(parseClient(op)) > 1 {
+			return false
+		}
+	}
+	return true
+}
+
+func addGet(p *vr.Partial, name string) int64 {
+	p.Add(name, 1)
+	return p.Counters[name]
 }
 
 type viol struct {
